@@ -236,8 +236,8 @@ func ruleV(p *Program, r *Reporter) {
 	// --- V3: one channel, one receiver, drop only on overflow, same sequence for every handler
 	evCh := p.Field("cache", "eventProcessor", "events")
 	hm := p.Field("cache", "eventProcessor", "handlersMutex")
-	if evCh == nil || hm == nil {
-		r.Anchor("V3", "eventProcessor.events / handlersMutex")
+	if evCh == nil {
+		r.Anchor("V3", "eventProcessor.events")
 		return
 	}
 	isEvCh := func(v ssa.Value) bool {
@@ -296,7 +296,6 @@ func ruleV(p *Program, r *Reporter) {
 		r.Anchor("V3", fmt.Sprintf("event channel: %d sends, %d receives", sends, recvs))
 	}
 	_ = hm // the handler list itself is guarded by handlersMutex: that is L2's obligation (guard table)
-	ci := getCallIndex(p)
 	var inLoopDeep func(fn *ssa.Function, at ssa.Instruction, depth int) bool
 	inLoopDeep = func(fn *ssa.Function, at ssa.Instruction, depth int) bool {
 		fc := newFlowCtx(fn)
@@ -307,7 +306,14 @@ func ruleV(p *Program, r *Reporter) {
 		if depth > 2 || fn.Parent() != nil {
 			return false
 		}
-		sites := ci.sites[fn]
+		// static call sites, and calls through a function value that resolve to it
+		// (handlers.each(event.deliver): the bound method is called from each's loop)
+		sites := p.CallSitesOf(fn)
+		if bw := boundWrappersOf(p, fn); len(bw) > 0 {
+			for _, w := range bw {
+				sites = append(sites, p.CallSitesOf(w)...)
+			}
+		}
 		if len(sites) == 0 {
 			return false
 		}
